@@ -104,6 +104,9 @@ class Gen:
             return "add(*%s)" % self.expr("ilist", depth - 1)
         if k == 6:
             self.features.add("kwarg")
+            if self.draw(st.integers(0, 2)) == 0:
+                # a callee that tolerates any object, given a possibly unknown value (None-bound name, loop variable) by keyword
+                return "tag(v=%s, w=%s)" % (self.name("int"), self.expr("int", depth - 1))
             return "kw(a=%s, b=%s)" % (self.expr("int", depth - 1), self.expr("int", depth - 1))
         if k == 7:
             return "(-%s)" % self.expr("int", depth - 1)
